@@ -144,6 +144,9 @@ func (s *Solver) Check(extra *Term, wantModel bool, vars []*Term) (Result, Model
 	case "sat":
 		res = Sat
 		s.NSat++
+		if wantModel {
+			m = Model{}
+		}
 		if wantModel && len(vars) > 0 {
 			var b strings.Builder
 			b.WriteString("(get-value (")
@@ -152,7 +155,9 @@ func (s *Solver) Check(extra *Term, wantModel bool, vars []*Term) (Result, Model
 			}
 			b.WriteString("))")
 			s.send(b.String())
-			m = s.readModel(len(vars))
+			for k, v := range s.readModel(len(vars)) {
+				m[k] = v
+			}
 		}
 	case "unsat":
 		res = Unsat
